@@ -31,8 +31,11 @@ side condition is checked syntactically, anything else is `Unsupported`), and on
 * `"object_iadd": ["self.leaders"]` (`x += e` on an object is the call `x.__iadd__(e)`), `"inplace": ["crowding_distance"]` (a
   statement `f(xs)` of a callee that reorders its list argument in place is read as `xs = f(xs)`), `"string_args": true` (a
   string literal argument is folded into the callee's name: `truncate(n, 'crowding_distance')` = `truncate__crowding_distance(n)`).
-* `"alias_copies": ["individuals = offsprings"]`   a designated `x = y` in the body of a top-level loop is translated as
-  `x = list(y)`; checked: from there on x is never modified in place and y only after the loop body has rebound it.
+* `"alias_copies": true` (or a list of statement texts)   an `x = y` between two list names, a top-level statement of the body
+  of a top-level loop, is translated as `x = list(y)`; checked: from there on x is never modified in place and y only after the loop body has rebound it.
+* `"unpack_pairs": true`   `a, b = f(...)` is `pair_k = f(...); a = pair_k[0]; b = pair_k[1]`.
+* `"fresh_effects": ["self.offspring_selector.select"]`   DECLARED (trusted, not checked here): the effect returns a new
+  list object, so the local it is bound to may be modified in place (CopySelector.select builds its result list).
 * the expression `[c] * len(e)` (c a numeric literal): `repeat c (length e)`; `range(0, e)` is read as `range(e)`.
 
 Stdlib only.  Nothing of the existing translator files is modified.
@@ -375,6 +378,18 @@ def alias_copies(fn, texts, qual, shadowed):
         raise Unsupported("alias_copies: the name `list` is rebound", fn, qual)
     fn2 = copy.deepcopy(fn)
     done = set()
+    if texts is True:
+        # every `x = y` between two names of which one is modified in place somewhere in the method (what the base
+        # translator would reject), at the top level of the body of a top-level loop
+        texts = []
+        for loop in fn2.body:
+            if isinstance(loop, (ast.For, ast.While)):
+                for st in loop.body:
+                    if isinstance(st, ast.Assign) and len(st.targets) == 1 and isinstance(st.targets[0], ast.Name) \
+                            and isinstance(st.value, ast.Name) and (mutates(fn2, st.targets[0].id) or mutates(fn2, st.value.id)):
+                        texts.append(ast.unparse(st))
+        if not texts:
+            raise Unsupported("alias_copies: no `x = y` of a modified list in the body of a top-level loop", fn, qual)
     for k, loop in enumerate(fn2.body):
         if not isinstance(loop, (ast.For, ast.While)):
             continue
@@ -400,6 +415,32 @@ def alias_copies(fn, texts, qual, shadowed):
         if t not in done:
             raise Unsupported("alias_copies: no top-level statement `%s` in the body of a top-level loop" % t, fn, qual)
     return fn2
+
+
+# -- pass 6: unpacking the pair a call returns ------------------------------------------------------------------------
+def unpack_pairs(fn, qual):
+    """`a, b = f(...)` (a statement; f a call, a and b names): `pair_k = f(...); a = pair_k[0]; b = pair_k[1]` - the result is a
+    sequence of which the first two items are taken (Python also requires that there are exactly two: a ValueError
+    otherwise, outside the translation like every other exception of a callee)"""
+    used = names_in(fn)
+    cnt = [0]
+
+    class Tr(ast.NodeTransformer):
+        def visit_Assign(self, n):
+            t = n.targets[0] if len(n.targets) == 1 else None
+            if isinstance(t, ast.Tuple) and len(t.elts) == 2 and all(isinstance(e, ast.Name) for e in t.elts) and isinstance(n.value, ast.Call):
+                cnt[0] += 1
+                tmp = "pair_%d" % cnt[0]
+                if tmp in used:
+                    raise Unsupported("unpack_pairs: the name %s is used by the method" % tmp, n, qual)
+                out = [ast.Assign(targets=[ast.Name(id=tmp, ctx=ast.Store())], value=n.value, type_comment=None)]
+                for k, e in enumerate(t.elts):
+                    out.append(ast.Assign(targets=[ast.Name(id=e.id, ctx=ast.Store())],
+                                          value=ast.Subscript(value=ast.Name(id=tmp, ctx=ast.Load()), slice=ast.Constant(value=k), ctx=ast.Load()),
+                                          type_comment=None))
+                return [fix(ast.copy_location(o, n), n) for o in out]
+            return n
+    return Tr().visit(copy.deepcopy(fn))
 
 
 def is_repeat(n):
@@ -455,9 +496,13 @@ def translate_spec(repo, spec):
         if fspec.get("counting_while"):
             fn = counting_while(fn, qual)
             passes.append("counting while -> for range")
+        if fspec.get("unpack_pairs"):
+            fn = unpack_pairs(fn, qual)
+            passes.append("`a, b = f(...)` read through a local for the pair")
         if "alias_copies" in fspec:
-            fn = alias_copies(fn, list(fspec["alias_copies"]), qual, base.module_shadows(tree, cls))
-            passes.append("aliases read as copies (never modified while live): " + ", ".join(fspec["alias_copies"]))
+            ac = fspec["alias_copies"]
+            fn = alias_copies(fn, True if ac is True else list(ac), qual, base.module_shadows(tree, cls))
+            passes.append("aliases read as copies (never modified while live)" + ("" if ac is True else ": " + ", ".join(ac)))
         if "stores" in fspec:
             fn, effs = stores(fn, fspec["stores"], qual, module_names)
             fspec["effects"] = list(fspec.get("effects", [])) + effs
@@ -476,11 +521,18 @@ def translate_spec(repo, spec):
             fspec["local_types"] = dict(fspec.get("local_types", {}), **lts)
             fspec["returns"] = "list " + fspec["element_writes"]["type"]
             passes.append("write log of %s in `%s`" % (fspec["element_writes"]["field"], fspec["element_writes"]["loop"]))
-        for k in ("counting_while", "stores", "element_writes", "object_iadd", "inplace", "string_args", "alias_copies"):
+        fresh_effects = list(fspec.pop("fresh_effects", []))
+        for k in ("counting_while", "stores", "element_writes", "object_iadd", "inplace", "string_args", "alias_copies", "unpack_pairs"):
             fspec.pop(k, None)
         ft = SwarmTranslator(spec["module"], cls or None, name, fspec, fn, done)
         ft.shadowed_builtins = base.module_shadows(tree, cls)
         ft.shadowed_extra = eff.module_shadows_extra(tree, cls)
+        for f in fresh_effects:                 # declared: the callee returns a NEW list object (it may be modified in place)
+            if f not in ft.effects or ft.effects[f].ret is None or not base.is_list(ft.effects[f].ret):
+                raise Unsupported("fresh_effects: %s is not a declared effect that returns a list" % f, node, qual)
+            ft.fresh_oracles.add(f)
+        if fresh_effects:
+            passes.append("declared to return a new list object: " + ", ".join(fresh_effects))
         code = ft.translate()
         note = ""
         if passes:
